@@ -30,6 +30,20 @@ func TestSweep(t *testing.T) {
 			}
 		}
 	}
+	// contention on the pool itself: tiny buffers, several held per goroutine, thousands of cycles
+	for i, g := range []int{3, 8, 32} {
+		for hold := 1; hold <= 3; hold++ {
+			for mode := 0; mode < 4; mode++ {
+				c := &Case{T: Types[(i+hold+mode)%len(Types)], C: 1 + mode%2, K: 1 + hold, L: mode % 2, G: g, M: env.Pick(16000, 80000) / g, Procs: []int{2, 8, 16}[(i+mode)%3],
+					Hold: hold, Rev: mode%2 == 1, Table: mode >= 2, Repeat: 1}
+				for k := 0; k < g; k++ {
+					c.Yields = append(c.Yields, []int{0, 0, 2, 4, 1, 0, 6, 0}[(k+mode)%8])
+					c.ByValue = append(c.ByValue, mode == 1 && k%2 == 0)
+				}
+				Oracle.One(t, env, rec, "sweep", c)
+			}
+		}
+	}
 	// buffers of 2.5-8 MiB, a few goroutines and cycles
 	for ti, tn := range []string{"float64", "uint64", "int32", "uint16", "int8"}[:env.Pick(2, 5)] {
 		c := &Case{T: tn, C: 1 + ti%2, K: (300000 << uint(ti)) / (1 + ti%2), L: 0, G: 4, M: 4, Procs: 8, Repeat: env.Pick(1, 3)}
